@@ -78,6 +78,8 @@ type Req struct {
 type Resp struct {
 	Setters  int    `json:"setters"` // fields populated through generated setters
 	Getters  int    `json:"getters"` // generated getters compared with the model
+	Clears   int    `json:"clears"`  // generated ClearX methods exercised
+	Built    int    `json:"built"`   // fields set through the generated builder
 	JSON     bool   `json:"json"`    // JSON leg compared outputs (false: both sides refused the content)
 	Text     bool   `json:"text"`
 	Lazy     bool   `json:"lazy"`               // the generated type has a lazy field somewhere below
@@ -234,6 +236,9 @@ func (st *state) init() (*Resp, error) {
 				if isDynamic(et.New(0)) {
 					return fmt.Errorf("enum %s: registered type is dynamic", es.Get(i).FullName())
 				}
+				if err := checkEnumMethods(et); err != nil {
+					return err
+				}
 			}
 			return nil
 		}
@@ -269,6 +274,9 @@ func (st *state) init() (*Resp, error) {
 					}
 					if mt.New().Descriptor() != md || mt.Zero().Descriptor() != md {
 						return fmt.Errorf("message %s: New()/Zero() have another descriptor", md.FullName())
+					}
+					if err := checkMessageMethods(mt, want); err != nil {
+						return err
 					}
 					res.Messages++
 				}
@@ -412,6 +420,25 @@ func (st *state) Case(q Req) (*Resp, error) {
 		}
 		if _, err = goapi.CheckGetters(gs.Interface(), v); err != nil {
 			return nil, fmt.Errorf("generated getters (message built through setters): %v", err)
+		}
+		if res.Clears, err = clearLeg(newG, v); err != nil {
+			return nil, fmt.Errorf("generated Clear methods: %v", err)
+		}
+		if b := Builders[q.Msg]; b != nil {
+			gb, n, err := buildLeg(b, mdG, v)
+			if err != nil {
+				return nil, fmt.Errorf("generated builder: %v", err)
+			}
+			res.Built = n
+			if err := ops.Verify(gb, v); err != nil {
+				return nil, fmt.Errorf("generated, built through the generated builder: %v", err)
+			}
+			if !proto.Equal(gb.Interface(), g.Interface()) {
+				return nil, fmt.Errorf("proto.Equal(built through the builder, built through protoreflect) = false")
+			}
+			if _, err = goapi.CheckGetters(gb.Interface(), v); err != nil {
+				return nil, fmt.Errorf("generated getters (message built through the builder): %v", err)
+			}
 		}
 	}
 
